@@ -232,6 +232,9 @@ func checkC08(c *mc.Ctx) {
 			Bound: "every chunk size 1..400 and a single chunk boundary at every offset 1..400 x {bufio, plain, seekable} x {explicit, auto} x packet size 188+k, k in {0,1,2,3,4,16} (auto: k<=4); bytes.Reader once per configuration"})
 		// deviation-bounded short reads
 		bound := 2
+		if c.Thorough() {
+			bound = 3
+		}
 		for _, cfg := range cfgs {
 			if cfg.Kind == "bytes" || (cfg.K != 0 && cfg.K != 4) {
 				continue
